@@ -380,6 +380,9 @@ func (c *Ctx) Bin(op Op, a, b *Term) *Term {
 	}
 	switch op {
 	case OpAdd:
+		if a.IsConst() && !b.IsConst() {
+			a, b = b, a
+		}
 		if a.IsConst() && a.k == 0 {
 			return b
 		}
